@@ -1,5 +1,6 @@
 (** Pinned statements of the C20 property theorems. *)
-From RsM Require Import Lib.MachInt Model.Slots Model.SlotsSpec Proofs.SlotsFacts Proofs.SlotsEvict Proofs.SlotsRdv Props.C20.
+From RsM Require Import Lib.MachInt Model.Slots Model.SlotsSpec Proofs.SlotsFacts Proofs.SlotsEvict Proofs.SlotsRdv
+  Proofs.SlotsExch Proofs.SlotsExchNode Proofs.SlotsSweep Proofs.SlotsProbe Props.C20.
 Open Scope N_scope.
 
 Check (C20_reserved_matches_handles : forall (cap mx : nat) (ops : list op),
@@ -47,3 +48,28 @@ Check (C20_late_deposit_noop : forall (s : rsys) (svc : N) (hasaddr : bool),
   (r_slot s = RvIdle \/ (exists o v, r_slot s = RvRequested o v) \/
    (exists o v, r_slot s = RvInFlight o v /\ (v <> svc \/ hasaddr = false))) ->
   rstep s (RDeposit svc hasaddr) = (s, RNone)).
+
+Check (C20_exchange_slots_owned : forall (cap mx : nat) (ops : list nop),
+  8 * N.of_nat (length ops) <= UID_MAX ->
+  let n := nrun cap mx node_init ops in
+  forall sid xi v, slot_live (Some v) = true -> lslot (nl n) sid xi v ->
+    exists a, In a (atts n) /\ a_sess a = sid /\ a_xi a = xi /\ (a_stage a = 0 <-> v = XPending)).
+
+Check (C20_quiescent_all_slots_free : forall (cap mx : nat) (ops : list nop) (k : nat) (now : N),
+  8 * N.of_nat (length ops + k) <= UID_MAX ->
+  let n := nrun cap mx node_init ops in
+  atts n = [] -> app_closed (nl n) -> (dcount (nl n) <= k)%nat ->
+  let n' := sweeps cap mx k now n in
+  forall s, In s (nl n') -> s_reserved s = false /\ forall e, In e (s_exch s) -> e = None).
+
+Check (C20_sweep_decreases : forall (cap mx : nat) (s : st) (now : N),
+  NoDup (ids (tb s)) -> (0 < dcount (t_sess (tb s)))%nat ->
+  (dcount (after_sweep cap mx s now) < dcount (t_sess (tb s)))%nat).
+
+Check (C20_handshake_gets_both_slots : forall (cap mx : nat) (ops : list nop) (k : hkind) (now : N),
+  8 * N.of_nat (length ops) + 24 <= UID_MAX ->
+  let n := nrun cap mx node_init ops in
+  room2 cap now (nl n) ->
+  (k = HPase -> marker_live now (marker n) = None) ->
+  exists n1 a, first_msg cap mx k now n = (n1, Some a) /\
+               snd (nstep cap mx n1 (NAccept a VGood now)) = ROk).
